@@ -269,12 +269,13 @@ func c12ArgKinds() []argKind {
 	}
 	return []argKind{
 		lit(`1`), lit(`"s"`), lit(`true`), lit(`null`), lit(`[1,2]`), lit(`["a"]`), lit(`[1,"a"]`), lit(`[]`), lit(`{"k":1}`),
+		lit(`[[1],[2,3]]`), lit(`[["x"]]`), lit(`[[1],[2,"a"]]`), lit(`[[["s"]]]`),
 		{"fn", func() *ast.Node { return ast.VarN("sum") }, val.Value{K: val.Fn}},
 		{"missing", func() *ast.Node { return ast.NameN("zz") }, val.U},
 	}
 }
 
-var c12Types = []string{"n", "s", "b", "l", "a", "o", "f", "j", "x", "(ns)", "(bl)", "(ao)", "(sf)", "a<n>", "a<s>", "a<(ns)>"}
+var c12Types = []string{"n", "s", "b", "l", "a", "o", "f", "j", "x", "(ns)", "(bl)", "(ao)", "(sf)", "a<n>", "a<s>", "a<(ns)>", "a<a<n>>", "a<a<(ns)>>", "a<a<a<s>>>"}
 var c12Opts = []string{"", "?", "+", "-"}
 
 func sigProgram(sig string, nparams int, args []*ast.Node) *ast.Node {
@@ -335,7 +336,7 @@ func fitsDirect(v val.Value, typ string) bool {
 // TestC12_Signatures: every one-parameter signature against every argument
 // list of length 0..2, judged by the reference and by the direct fits table.
 func TestC12_Signatures(t *testing.T) {
-	rec := begin(t, "C12", "exhaustive: every one-parameter signature (16 type specifications x options none/?/+/-) against every argument list of length 0..2 over 11 value kinds (number, string, boolean, null, arrays, object, function, missing) under two context items; judged by the reference evaluator and by a direct 'fits' relation for the error/no-error decision; every (signature, argument list) pair is non-trivial and distinct")
+	rec := begin(t, "C12", "exhaustive: every one-parameter signature (19 type specifications incl. array subtypes nested two and three deep x options none/?/+/-) against every argument list of length 0..2 over 15 value kinds (number, string, boolean, null, arrays, arrays of arrays, object, function, missing) under two context items; judged by the reference evaluator and by a direct 'fits' relation for the error/no-error decision; every (signature, argument list) pair is non-trivial and distinct")
 	defer finish(t, rec)
 	kinds := c12ArgKinds()
 	ctxs := []val.Value{val.S("ctx"), val.N(5)}
@@ -437,7 +438,7 @@ func names(list []argKind) []string {
 
 // TestC12_SignaturesRandom: signatures of 1..3 parameters against argument lists of length 0..4.
 func TestC12_SignaturesRandom(t *testing.T) {
-	rec := begin(t, "C12", "rapid: signatures of 1..3 parameters (type letters, unions, array subtypes, options ? + - in any position) against argument lists of length 0..4 over the 11 value kinds; oracle = reference evaluator (argument count/type errors and the values actually bound to the parameters); non-trivial = every case; distinct by signature + argument list + context")
+	rec := begin(t, "C12", "rapid: signatures of 1..3 parameters (type letters, unions, array subtypes, options ? + - in any position) against argument lists of length 0..4 over the 15 value kinds; oracle = reference evaluator (argument count/type errors and the values actually bound to the parameters); non-trivial = every case; distinct by signature + argument list + context")
 	defer finish(t, rec)
 	kinds := c12ArgKinds()
 	rapidRun(t, rec, 30000, 400000, func(rt *rapid.T) {
@@ -725,7 +726,23 @@ func ctxCall(t *rapid.T, fns []ctxFn, depth int) (implicit, explicit *ast.Node) 
 	}
 	args := f.args(t, inner)
 	p := ctxPath(t)
-	implicit = ast.PathN(p, ast.CallN(f.name, args...))
+	// the callee: the built-in's name, or an expression that evaluates to the
+	// built-in (the context item is that of the call site all the same)
+	form := rapid.IntRange(0, 9).Draw(t, "calleeForm")
+	callee := func() *ast.Node {
+		switch form {
+		case 0:
+			return ast.BlockN(ast.VarN(f.name))
+		case 1:
+			return ast.BlockN(ast.N(ast.Cond, ast.BoolN(true), ast.VarN(f.name), ast.VarN("string")))
+		case 2:
+			return ast.BlockN(ast.NumN(0), ast.VarN(f.name))
+		case 3:
+			return ast.CallE(ast.LambdaN(nil, "", ast.VarN(f.name)))
+		}
+		return ast.VarN(f.name)
+	}
+	implicit = ast.PathN(p, ast.CallE(callee(), args...))
 	eargs := make([]*ast.Node, len(args))
 	for i, a := range args {
 		eargs[i] = a.Clone()
@@ -733,14 +750,14 @@ func ctxCall(t *rapid.T, fns []ctxFn, depth int) (implicit, explicit *ast.Node) 
 			eargs[i] = innerExplicit
 		}
 	}
-	explicit = ast.PathN(p.Clone(), ast.CallN(f.name, append([]*ast.Node{ast.VarN("")}, eargs...)...))
+	explicit = ast.PathN(p.Clone(), ast.CallE(callee(), append([]*ast.Node{ast.VarN("")}, eargs...)...))
 	return
 }
 
 // TestC12_Context: built-ins that default their first argument to the context
 // item use the context of their own call site, however calls are nested.
 func TestC12_Context(t *testing.T) {
-	rec := begin(t, "C12", "rapid: every context-defaulting built-in under a path context, with argument lists that trigger the default, arguments themselves containing context-defaulting calls under other path contexts ($$.q.$g(...)) nested up to depth 3; oracles = reference evaluator and the metamorphic relation P.$f(args) == P.$f($, args); non-trivial = nesting depth >= 2; distinct by program text")
+	rec := begin(t, "C12", "rapid: every context-defaulting built-in under a path context, called by name or through an expression that evaluates to it (parenthesised, conditional, block, returned by a lambda), with argument lists that trigger the default, arguments themselves containing context-defaulting calls under other path contexts ($$.q.$g(...)) nested up to depth 3; oracles = reference evaluator and the metamorphic relation P.$f(args) == P.$f($, args); non-trivial = nesting depth >= 2; distinct by program text")
 	defer finish(t, rec)
 	fns := c12CtxFns()
 	doc := val.MustJSON(c12CtxDoc)
